@@ -27,7 +27,7 @@ Qed.
 (* stateless formats: the configuration is the unread input *)
 Definition at_plain (_ : unit) (c tl : list N) : Prop := c = tl.
 
-Lemma rem_plain : forall (e : unit) (c tl : list N), at_plain e c tl -> (length tl - 0 <= length c <= length tl)%nat.
+Lemma rem_plain : forall (e : unit) (c tl : list N), at_plain e c tl -> (length tl - 0 <= length c <= length tl + 0)%nat.
 Proof. intros e c tl H. red in H. subst. lia. Qed.
 
 (* ------------------------------------------------------------------ *)
@@ -42,6 +42,7 @@ Module CborI.
     encf := fun i e => (enc O i, e);
     decf := fun b => dec_naked D (fuel_for b) b;
     skipf := fun b => capture b (skip D (fuel_for b) d b);
+    rawf := fun i _ => enc O i;
     normf := norm O D;
     rem := @length N |}.
 
@@ -72,6 +73,7 @@ Module MsgpackI.
     encf := fun i e => (enc O i, e);
     decf := fun b => dec_naked D (dec_fuel b) b;
     skipf := fun b => capture b (skip_at D d0 (dec_fuel b) b);
+    rawf := fun i _ => enc O i;
     normf := norm O D;
     rem := @length N |}.
 
@@ -104,6 +106,7 @@ Module SimpleI.
     encf := fun i e => (enc o false i, e);
     decf := fun b => dec_naked D (dec_fuel b) b;
     skipf := fun b => raw D (dec_fuel b) b;
+    rawf := fun i _ => enc o false i;
     normf := norm o D false;
     rem := @length N |}.
 
@@ -134,6 +137,7 @@ Module BincI.
     decf := fun c => do (x, rest, st') <- dec_naked D (fst c) (snd c) ;; Ok (x, (st', rest));
     skipf := fun c => do (_, rest, st') <- skip_value D (fst c) (snd c) ;;
                       do (b, r) <- capture (snd c) (Ok rest) ;; Ok (b, (st', r));
+    rawf := fun i e => fst (enc E false i e);
     normf := norm E D;
     rem := fun c => length (snd c) |}.
 
